@@ -463,12 +463,12 @@ QASTS = [CAT.q_ast(q) for q in QUERIES]
 BATCH_SIZES = [1, 1, 2, 3, 5, 63, 64, 65, 4294967295]
 
 
-def query_op(g, paths):
+def query_op(g, paths, qpool=None):
     r = g.r
-    w = r.randrange(2)
+    w = r.randrange(2) if qpool is None else (0 if r.random() < 0.9 else 1)
     if g.poisoned[w]:
         return
-    qi = r.randrange(len(QUERIES)) if r.random() < 0.55 else r.randrange(24)
+    qi = r.choice(qpool) if qpool else (r.randrange(len(QUERIES)) if r.random() < 0.55 else r.randrange(24))
     path = r.choice(paths)
     arg = r.choice(BATCH_SIZES) if path in (3, 10) else (r.randrange(40) + (1000 if r.random() < 0.15 else 0)) if path in (9, 11) else 0
     g.emit(30, w, qi, path, arg, len(QASTS[qi]), QASTS[qi])
@@ -700,9 +700,19 @@ class ContGen(WorldGen):
                     self.emit(60, s, t, self.val()); self.ebc[s].add(t)
                 self.emit(63, s, ks); self.built[ks] = set(self.ebc[s]); self.ebc[s] = set()
                 self.emit(64, ks, w); self.materialise(w); self.add(w, True, self.built[ks])
-                self.emit(65, ks, s); self.ebc[s] = set(self.built[ks]); self.built[ks] = None
                 if r.random() < 0.5:
+                    # convert a CLONE of the built bundle back (its storage is laid out in build order, not in add order)
+                    ks2 = (ks + 1 + r.randrange(3)) % 4
+                    self.emit(67, ks, ks2); self.built[ks2] = set(self.built[ks])
+                    self.emit(65, ks2, s); self.ebc[s] = set(self.built[ks2]); self.built[ks2] = None
+                else:
+                    self.emit(65, ks, s); self.ebc[s] = set(self.built[ks]); self.built[ks] = None
+                if r.random() < 0.6:
                     t = r.randrange(NT); self.emit(60, s, t, self.val()); self.ebc[s].add(t)
+                self.emit(66, s)                                                      # has/get/component_types of every type
+                if r.random() < 0.3:
+                    s2 = (s + 1) % 4
+                    self.emit(62, s, s2); self.ebc[s2] = set(self.ebc[s]); self.emit(66, s2)   # and of a clone of the re-opened builder
                 self.emit(63, s, ks); self.built[ks] = set(self.ebc[s]); self.ebc[s] = set()
                 self.emit(64, ks, w); self.add(w, True, self.built[ks])
             elif c < 0.4:
@@ -1045,7 +1055,7 @@ SERDE_ASSUME = ["the user context is the documented example generalised: it hand
 BOUNDARY = [0, 1, 2, 5, 62, 63, 64, 65, 66, 70, 127, 128, 129, 130]
 
 
-def layout_case(universe, rnd, nops):
+def layout_case(universe, rnd, nops, qpaths=None):
     g = WorldGen(rnd, "default")
     g.small = rnd.random() < 0.5
     r = rnd
@@ -1071,6 +1081,21 @@ def layout_case(universe, rnd, nops):
         else:
             g.w = [30, 2, 22, 12, 8, 10, 2, 4, 0, 3, 2, 2, 2, 0, 0, 0]
             g.step()
+        if qpaths and r.random() < 0.12 and not g.poisoned[0]:
+            # a prepared view, then growth of the SAME archetype past its capacity (no archetype is created, so the
+            # prepared query stays valid while the columns move), then the same prepared view again
+            ts = r.choice([(1,), (1, 2), (2, 1)])
+            qi = r.choice([1, 5, 9])
+            n1, n2 = r.choice([1, 5, 62, 63, 64]), r.choice([2, 5, 66, 70, 130])
+            g.emit(14, 0, len(ts), list(ts), n1, [g.val() for _ in range(n1 * len(ts))]); g.materialise(0); g.add(0, True, ts, n=n1)
+            g.emit(30, 0, qi, 6, 0, len(QASTS[qi]), QASTS[qi])
+            g.emit(14, 0, len(ts), list(ts), n2, [g.val() for _ in range(n2 * len(ts))]); g.add(0, True, ts, n=n2)
+            g.emit(30, 0, qi, 6, 0, len(QASTS[qi]), QASTS[qi])
+            g.emit(30, 0, qi, r.choice([4, 5]), 0, len(QASTS[qi]), QASTS[qi])
+        if qpaths and r.random() < 0.45 and not g.poisoned[w]:
+            # few distinct prepared queries, reused across growth of the archetypes they cache (columns move when the
+            # capacity is exceeded although no archetype is created)
+            query_op(g, qpaths, [1, 5, 9, 2])
         g.emit(23)
     g.probe(extra=2)
     g.emit(23, 21, 0, 21, 1)
@@ -1090,11 +1115,11 @@ LAYOUT_RULE = ("engine world, layout profile: 8 component layouts (ZST align 1, 
                "and " + WORLD_RULE)
 
 
-def gen_layout(quick_n, thorough_n):
+def gen_layout(quick_n, thorough_n, qpaths=None):
     def gen(tier, seed, universe):
         rnd = random.Random(seed)
         for _ in range(quick_n if tier == "quick" else thorough_n):
-            yield layout_case(universe, rnd, rnd.randrange(3, 16))
+            yield layout_case(universe, rnd, rnd.randrange(3, 16), qpaths)
     return gen
 
 
